@@ -66,7 +66,11 @@ def build(rng, lazy):
             dims = tuple(dims[i1] if k == i2 else d for k, d in enumerate(dims))
             shape = tuple(shape[i1] if k == i2 else e for k, e in enumerate(shape))
             a = (np.arange(int(np.prod(shape))) * rng.choice([1, 3, -2]) + rng.randint(-5, 5)).astype(dt).reshape(shape)
-        ds[name] = BaseType(name, a, dims=dims)
+        # a fill-value attribute naming a value the array really holds: mean() is the arithmetic mean of what is stored
+        fattrs = {}
+        if rng.random() < 0.4:
+            fattrs[rng.choice(["_FillValue", "missing_value"])] = a.reshape(-1)[rng.randrange(a.size)].item()
+        ds[name] = BaseType(name, a, dims=dims, **fattrs)
         arrays[name] = (a, dims)
     if not clash:
         ga, maps = add_grid()
@@ -294,7 +298,12 @@ def main():
             stats["degenerate_bounds"] += any(lo == hi for lo, hi in b.values())
             call = "bounds(%d,%d,%d,%d,%d,%d,0,0)" % (b["X"] + b["Y"] + b["Z"])
             proj = rng.choice(["loc", "", "loc.t", "loc." + rng.choice(colnames) + ",loc.t"])
-            url = "/d.dods?%s%s%s" % (proj, "&" if proj else "", call)
+            # the call in selection position (after '&') or in projection position (one more item of the projection list)
+            sep = rng.choice(["&", ","]) if proj else ""
+            if sep == "," and rng.random() < 0.25:
+                proj = rng.choice(["x", "x,loc", "loc,x"])
+            stats["bounds_in_projection_position"] = stats.get("bounds_in_projection_position", 0) + (sep == "," or not proj)
+            url = "/d.dods?%s%s%s" % (proj, sep, call)
             r.count(("bounds", i, url, tuple(rows)))
             want_rows = [r_ for r_ in rows if all(b[ax][0] <= r_[axis_of[ax]] <= b[ax][1] for ax in "XYZ")]
             axes_in_col_order = sorted((axis_of[ax], b[ax][0], b[ax][1]) for ax in "XYZ")
@@ -303,7 +312,7 @@ def main():
                 clist(rows, lambda r_: clist(list(r_), lambda v: "(%d)%%Z" % round(v * SC))),
                 clist(want_rows, lambda r_: clist(list(r_), lambda v: "(%d)%%Z" % round(v * SC)))))
             try:
-                res = open_dods_url("http://localhost:8001/d.dods?%s%s%s" % (proj, "&" if proj else "", call), application=ssf)
+                res = open_dods_url("http://localhost:8001" + url, application=ssf)
                 seq = res["loc"]
                 names = list(seq.keys())
                 got = [tuple(float(v) for v in rec) for rec in seq.iterdata()]
